@@ -592,14 +592,23 @@ def corrupt_cases(rng, streams, per_stream=40, flavour="asan"):
             c = bytearray(b)
             kind = rng.random()
             pos = rng.randrange(n) if rng.random() < 0.5 else min(n - 1, 11 + rng.randrange(min(60, max(1, n - 11))))
-            if kind < 0.6:
+            if kind < 0.45:
                 c[pos] = rng.randrange(256)
-            elif kind < 0.8:
+            elif kind < 0.6:
                 c[pos] ^= 1 << rng.randrange(8)
-            elif kind < 0.9:
+            elif kind < 0.68:
                 c = c[:max(11, rng.randrange(n))]
-            else:
+            elif kind < 0.76:
                 c[pos] = rng.choice([0, 1, 0x7f, 0x80, 0xff])
+            elif kind < 0.84:          # two bytes
+                c[pos] = rng.randrange(256)
+                c[rng.randrange(n)] = rng.randrange(256)
+            elif kind < 0.9:           # insert a byte
+                c.insert(pos, rng.randrange(256))
+            elif kind < 0.96:          # delete a byte
+                del c[pos]
+            else:                      # increment / decrement (counts, ids)
+                c[pos] = (c[pos] + rng.choice([1, 255])) % 256
             op = f"dec - {bytes(c).hex()}"
 
             def expect(hout, mout, case):
